@@ -185,7 +185,9 @@ class Sess:
 SCRIPT = ["connect", "handshake", "enableBLOB", "client-write", "device-traffic"]
 
 
-def run(transport, fault, victim, step):
+def run(transport, fault, victim, step, paused=False, second=None):
+    """second = (fault2, victim2, step2): another TCP connection ends too; paused: the victim's flow control is
+    paused from the start, so device traffic for it is queued behind a pending drain when it ends"""
     from indi.device.values import BLOB
     from indi.transport.server import tcp as server_tcp
 
@@ -204,13 +206,21 @@ def run(transport, fault, victim, step):
             s.connect_tty()
         conns = list(s.conns)
         vconn = conns[victim] if transport == "tcp" else s.tty
+        vconn2 = conns[second[1]] if second else None
+        injected2 = [False]
+        if paused and vconn["kind"] == "tcp":
+            vconn["link"].server_ep.pause()
 
         def maybe(k):
             nonlocal injected
+            did = False
             if k == step and not injected:
                 injected = s.inject(vconn, fault) is not False
-                return True
-            return False
+                did = True
+            if second and k == second[2] and not injected2[0]:
+                injected2[0] = s.inject(vconn2, second[0]) is not False
+                did = True
+            return did
 
         maybe(0)
         for c in conns:
@@ -222,42 +232,32 @@ def run(transport, fault, victim, step):
                 s.send(c, "<enableBLOB device=\"DEV0\">%s</enableBLOB>" % pol)
                 c["policy"] = pol
         maybe(2)
-        s.send(conns[0] if vconn is not conns[0] else conns[1], '<newTextVector device="DEV0" name="T"><oneText name="A">fromclient</oneText></newTextVector>')
+        writer = next(c for c in conns if c is not vconn and c is not vconn2)
+        s.send(writer, '<newTextVector device="DEV0" name="T"><oneText name="A">fromclient</oneText></newTextVector>')
         maybe(3)
         dev.g.t.a.value = "traffic1"
         dev.g.b.a.value = BLOB(b"blob1", ".x")
         s.pump()
         maybe(4)
-        if not injected:
+        if not injected or (second and not injected2[0]):
             return [], False
         s.pump()
         s.finish_fault(vconn)
+        if vconn2:
+            s.finish_fault(vconn2)
+        victims = [vconn] + ([vconn2] if vconn2 else [])
         # --- after the end of the victim's connection
         marks = {id(c): len(s.output(c)) for c in conns}
         dev.g.t.a.value = "AFTER-TEXT"
         dev.g.b.a.value = BLOB(b"AFTER-BLOB", ".y")
         s.pump()
         router = w.router
+        for vconn in victims:
+            fails += check_victim(s, vconn, router, server_tcp, marks, d0, step)
+        vconn = victims[0]
         vh = vconn["handler"]
-        if vh in router.clients:
-            fails.append(("victim-still-registered", d0, "step %d: the ended connection is still in Router.clients" % step))
-        if vh in router.blob_routing:
-            fails.append(("victim-blob-settings-kept", d0, "step %d: BLOB settings of the ended connection survive" % step))
-        if vconn["kind"] == "tcp":
-            if vh in server_tcp.ConnectionHandler.connections:
-                fails.append(("victim-in-connection-list", d0, "step %d: the ended connection is still in ConnectionHandler.connections" % step))
-            if not vconn["link"].server_ep.transport.closing:
-                fails.append(("victim-not-closed", d0, "step %d: the server did not close the ended connection" % step))
-            if not vconn["link"].server_task.done():
-                fails.append(("victim-handler-running", d0, "step %d: the handler task of the ended connection still runs" % step))
-        else:
-            if not vconn["task"].done():
-                fails.append(("victim-handler-running", d0, "step %d: the TTY handler still runs" % step))
-        vtail = s.output(vconn)[marks[id(vconn)] :]
-        if "AFTER-TEXT" in vtail or "QUZURVItQkxPQg==" in vtail:
-            fails.append(("delivery-to-ended-connection", d0, "step %d: device traffic was still written to the ended connection" % step))
         for c in conns:
-            if c is vconn:
+            if c in victims:
                 continue
             tail = s.output(c)[marks[id(c)] :]
             els, rest = X.split_elements(tail)
@@ -287,7 +287,7 @@ def run(transport, fault, victim, step):
             fails.append(("reconnect-not-served", d0, "step %d: a new connection does not receive device traffic" % step))
         if "QUZURVIyLUJMT0I=" in tail:
             fails.append(("reconnect-inherits-policy", d0, "step %d: a new connection receives BLOBs without asking" % step))
-        expect_clients = len(conns) - 1 + 1
+        expect_clients = len(conns) - len(victims) + 1
         if len(router.clients) != expect_clients:
             fails.append(("router-client-count", d0, "step %d: Router.clients has %d entries, expected %d" % (step, len(router.clients), expect_clients)))
         if len(router.blob_routing) != expect_clients:
@@ -295,6 +295,29 @@ def run(transport, fault, victim, step):
     finally:
         s.close()
     return fails, True
+
+
+def check_victim(s, vconn, router, server_tcp, marks, d0, step):
+    fails = []
+    vh = vconn["handler"]
+    if vh in router.clients:
+        fails.append(("victim-still-registered", d0, "step %d: the ended connection is still in Router.clients" % step))
+    if vh in router.blob_routing:
+        fails.append(("victim-blob-settings-kept", d0, "step %d: BLOB settings of the ended connection survive" % step))
+    if vconn["kind"] == "tcp":
+        if vh in server_tcp.ConnectionHandler.connections:
+            fails.append(("victim-in-connection-list", d0, "step %d: the ended connection is still in ConnectionHandler.connections" % step))
+        if not vconn["link"].server_ep.transport.closing:
+            fails.append(("victim-not-closed", d0, "step %d: the server did not close the ended connection" % step))
+        if not vconn["link"].server_task.done():
+            fails.append(("victim-handler-running", d0, "step %d: the handler task of the ended connection still runs" % step))
+    else:
+        if not vconn["task"].done():
+            fails.append(("victim-handler-running", d0, "step %d: the TTY handler still runs" % step))
+    vtail = s.output(vconn)[marks[id(vconn)] :]
+    if "AFTER-TEXT" in vtail or "QUZURVItQkxPQg==" in vtail:
+        fails.append(("delivery-to-ended-connection", d0, "step %d: device traffic was still written to the ended connection" % step))
+    return fails
 
 
 def shards(tier, seed):
@@ -312,17 +335,31 @@ def run_shard(shard):
     res = {"evaluations": 0, "injected": 0, "violations": [], "samples": [], "counters": {}}
     sig = {}
     victims = (0, 1, 2) if transport == "tcp" else (0,)
+    cases = []
     for victim in victims:
         for step in range(5):
-            fails, injected = run(transport, fault, victim, step)
-            res["evaluations"] += 1
-            res["injected"] += 1 if injected else 0
-            for clause, disc, what in fails:
-                key = (clause, disc)
-                if key in sig:
-                    sig[key]["count"] += 1
-                else:
-                    sig[key] = {"clause": clause, "disc": disc, "count": 1, "what": "victim %s: %s" % (victim, what), "replay": dict(transport=transport, fault=fault, victim=victim, step=step)}
+            cases.append(dict(victim=victim, step=step))
+            if transport == "tcp":
+                cases.append(dict(victim=victim, step=step, paused=True))
+            # a second connection ends as well (another fault kind, same or later step)
+            f2s = FAULTS if tier == "thorough" else FAULTS[(FAULTS.index(fault) + 1) % len(FAULTS) :][:2]
+            for f2 in f2s:
+                for v2 in (0, 1, 2):
+                    if transport == "tcp" and v2 == victim:
+                        continue
+                    for step2 in (range(step, 5) if tier == "thorough" else (step, 4)):
+                        cases.append(dict(victim=victim, step=step, second=(f2, v2, step2)))
+    for c in cases:
+        fails, injected = run(transport, fault, **c)
+        res["evaluations"] += 1
+        res["injected"] += 1 if injected else 0
+        for clause, disc, what in fails:
+            extra = (",paused" if c.get("paused") else "") + (",second=%s" % c["second"][0] if c.get("second") else "")
+            key = (clause, disc + extra)
+            if key in sig:
+                sig[key]["count"] += 1
+            else:
+                sig[key] = {"clause": clause, "disc": disc + extra, "count": 1, "what": "victim %s: %s" % (c["victim"], what), "replay": dict(transport=transport, fault=fault, **c)}
     res["violations"] = list(sig.values())
     if transport == "tcp" and fault == "eof":
         res["samples"].append(dict(transport=transport, fault=fault, victim=1, step=2, script=SCRIPT))
@@ -343,5 +380,7 @@ def finish(tier, seed, m):
 
 
 def replay(rep):
-    fails, inj = run(rep["transport"], rep["fault"], rep["victim"], rep["step"])
-    return [{"clause": c, "disc": d, "what": w} for c, d, w in fails]
+    second = tuple(rep["second"]) if rep.get("second") else None
+    fails, inj = run(rep["transport"], rep["fault"], rep["victim"], rep["step"], rep.get("paused", False), second)
+    extra = (",paused" if rep.get("paused") else "") + (",second=%s" % second[0] if second else "")
+    return [{"clause": c, "disc": d + extra, "what": w} for c, d, w in fails]
